@@ -194,6 +194,17 @@ class Host(object):
         return int(r), unpack_mem(buf.raw, False)
 
 
+    def trace(self, fname, a, b, c, memvals, n):
+        """values of the n statement variables of a function compiled with trace=True"""
+        fn = getattr(self.lib, fname)
+        fn.restype = ctypes.c_uint64
+        fn.argtypes = [ctypes.c_uint32, ctypes.c_uint32, ctypes.c_uint32, ctypes.c_void_p, ctypes.c_void_p]
+        buf = ctypes.create_string_buffer(pack_mem(memvals, False), S_SIZE)
+        tr = (ctypes.c_uint64 * max(1, n))()
+        fn(a, b, c, ctypes.addressof(buf), ctypes.addressof(tr))
+        return [int(x) for x in tr][:n]
+
+
 # ---------------------------------------------------------------------------
 # miasm executor
 # ---------------------------------------------------------------------------
@@ -210,6 +221,10 @@ class Guest(object):
         self.machine = Machine(self.t["machine"])
         self.jitter = self.machine.jitter(self.loc_db, backend)
         j = self.jitter
+        # Blocks end at branches only.  (Side observation, outside C19: the Python back end never
+        # clears the MIPS "branch_dst_set" delay-slot marker, so a block that ends without a branch
+        # -- split at jit_maxline or at a breakpoint -- jumps to the target of the last taken branch.)
+        j.jit.options["jit_maxline"] = 100000
         j.vm.add_memory_page(STACK_BASE, csts.PAGE_READ | csts.PAGE_WRITE, b"\0" * STACK_SIZE, "stack")
         j.vm.add_memory_page(MEM_BASE, csts.PAGE_READ | csts.PAGE_WRITE, b"\0" * 4096, "S")
         self.code_len = 0
@@ -287,6 +302,9 @@ class Guest(object):
         setattr(cpu, t["lr"], RET_ADDR)
         cpu.set_exception(0)
         vm.set_exception(0)
+        if self.backend == "python" and self.target.startswith("mips"):
+            from miasm.expression.expression import ExprId, ExprInt
+            j.jit.symbexec.symbols[ExprId("branch_dst_set", 32)] = ExprInt(0, 32)
         self.fault = None
         self.returned = False
         self.steps = 0
